@@ -13,7 +13,8 @@ EXTENDS RedactorEnv
 VARIABLES env, verb, stage, nest, phase
 
 Verbs == {"aggregate", "insert", "find", "update", "delete", "count", "findAndModify", "findOneAndDelete", "replace",
-          "findOneAndReplace", "findOneAndUpdate", "getIndexes", "countDocuments", "getMore", "distinct", "explain"}
+          "findOneAndReplace", "findOneAndUpdate", "getIndexes", "countDocuments", "getMore", "distinct", "explain",
+          "aggregateDb"}       \* a database-level aggregate: {aggregate: 1, pipeline: [{$currentOp / $changeStream / $documents ...}], $db}
 Comps   == {"COMMAND", "WRITE", "NETWORK", "INDEX"}
 Msgs    == {"Slow query", "Index build: done"}
 Holders == {"command", "cmd", "originatingCommand", "all"}
@@ -48,6 +49,11 @@ CmdDoc ==
   THEN Obj(<< <<"aggregate", NsName>>,
               <<"pipeline", Arr(<< Obj(<< <<"$match", Obj(<< <<"uf1", Leaf("plain", "user")>> >>)>> >>) >>
                                 \o (IF stage = "none" THEN << >> ELSE Nested(nest, StageTree(stage))))>>,
+              <<"cursor", Obj(<< >>)>>, <<"$db", NsName>> >>)
+  ELSE IF verb = "aggregateDb"
+  THEN Obj(<< <<"aggregate", Num("env")>>,
+              <<"pipeline", Arr(<< Obj(<< <<"$currentOp", Obj(<< <<"allUsers", Bool("free")>> >>)>> >>),
+                                   Obj(<< <<"$match", Obj(<< <<"uf1", Leaf("plain", "user")>> >>)>> >>) >>)>>,
               <<"cursor", Obj(<< >>)>>, <<"$db", NsName>> >>)
   ELSE IF verb = "explain"
   THEN Obj(<< <<"explain", Obj(<< <<"find", NsName>>, <<"filter", Obj(<< <<"uf1", Leaf("plain", "user")>> >>)>> >>)>>, <<"$db", NsName>> >>)
